@@ -104,6 +104,9 @@ def run(ctx):
                 ok = True
     ctx.ob("R17.3", "%s|judges-exactly-the-targets" % O.key, ok, where=O.span, detail="only records with is_target() == true are collected and judged" if ok else "ood does not restrict itself to is_target records")
 
+    from rules import dirt
+    ctx.rule("R17.5", "the shared dirtiness routine consults the 'already checked' memo (redo-ood's in-memory set) only after the failed / never-built / changed-later-than-parent tests")
+    dirt.memo_placement(ctx, "R17.5")
     IT = prog.one(r"state::File::is_target")
     tba = BA.of(IT)
     gsw = common.field_switches(IT, "state::File.is_generated")
